@@ -240,7 +240,7 @@ pub fn decoders() -> Vec<Decoder> {
         d!("PublicKey::from_bytes", Feed::Bin, v_pub, |b, _t| PublicKey::from_bytes(b).map(|k| (k.to_decompressed().is_ok(), k.to_compressed().is_ok(), k.to_p2pkh_address().is_ok()))),
         d!("PublicKey::from_hex", Feed::Hex, v_pub, |_b, t| PublicKey::from_hex(t)),
         d!("ExtendedPrivateKey::from_string", Feed::Text, v_xprv, |_b, t| ExtendedPrivateKey::from_string(t).map(|k| k.to_string().is_ok())),
-        d!("ExtendedPublicKey::from_string", Feed::Text, v_xpub, |_b, t| ExtendedPublicKey::from_string(t).map(|k| (k.to_string().is_ok(), k.derive(1).is_ok()))),
+        d!("ExtendedPublicKey::from_string", Feed::Text, v_xpub, |_b, t| ExtendedPublicKey::from_string(t).map(|k| k.to_string().is_ok())),
         d!("P2PKHAddress::from_string", Feed::Text, v_addr, |_b, t| P2PKHAddress::from_string(t)),
         d!("P2PKHAddress::from_pubkey_hash", Feed::Bin, v_hash20, |b, _t| P2PKHAddress::from_pubkey_hash(b)),
         d!("Signature::from_der", Feed::Bin, v_der, |b, _t| Signature::from_der(b)),
